@@ -100,6 +100,8 @@ fn alpha(_cfg: &Cfg) -> Vec<Op> {
         .collect();
     v.extend(drops);
     v.push(c(lfs(12)).kind(Kind::FeedPartial));
+    v.push(c(lfs(12)).kind(Kind::FeedSplit));
+    v.push(t("bcdefgh").kind(Kind::FeedSplit));
     v.push(c(lfs(3)).kind(Kind::FeedChars));
     v.push(c(lfs(25)).kind(Kind::FeedChars));
     for (cc, r) in [(1, 1), (1, 3), (2, 2), (3, 2), (5, 1), (2, 4)] {
